@@ -89,9 +89,11 @@ def extract(nng, arch, res):
                 cmds.append(d)
                 continue
             if NOP and isinstance(cmd, NOP):
-                # a feature-map copy that the compiler elided because source and destination have the same address in the
-                # same memory area: from here on the bytes of in_tensor *are* out_tensor.  No NPU operation is emitted, so it
-                # is recorded beside the command list (position = index of the next emitted command).
+                # a feature-map copy that the compiler elided: it claims that source and destination are the same bytes, i.e.
+                # that from here on the bytes of in_tensor *are* out_tensor.  No NPU operation is emitted, so it is recorded
+                # beside the command list (position = index of the next emitted command) with the region AND offset of both
+                # tensors; whether they really are the same bytes (same memory, not just equal offsets) is decided by
+                # NpuTagTrace.tla (Alias / ElidedCopySameBytes), not assumed here.
                 it, ot = cmd.in_tensor, cmd.out_tensor
                 if it.address is not None and ot.address is not None:
                     aliases.append({"before": len(cmds), "name": cmd.ps.name,
